@@ -327,16 +327,22 @@ class Gen:
             if ls and ch < 0.75:
                 l = r.choice(ls)
                 self.features.add("index-assign")
+                # the right-hand side is pure: a call that resizes the list between the evaluation of the
+                # element designator and the store is outside the modelled fragment
                 if r.random() < self.fault_rate:
-                    return [f"{l}[{self.pure_atom_int(scopes)}] = {self.expr(T_INT, scopes, d)};"]
-                return [f"if {l}.len() > 0 {{ {l}[{r.choice([0, -1])}] {r.choice(['=', '+='])} {self.expr(T_INT, scopes, d)}; }}"]
+                    return [f"{l}[{self.pure_atom_int(scopes)}] = {self.expr(T_INT, scopes, d, pure=True)};"]
+                return [f"if {l}.len() > 0 {{ {l}[{r.choice([0, -1])}] {r.choice(['=', '+='])} {self.expr(T_INT, scopes, d, pure=True)}; }}"]
             os_ = self.vars_of(scopes, T_OBJ)
             if os_:
                 self.features.add("field-assign")
-                return [f"{r.choice(os_)}.a {r.choice(['=', '+=', '-='])} {self.expr(T_INT, scopes, d)};"]
+                return [f"{r.choice(os_)}.a {r.choice(['=', '+=', '-='])} {self.expr(T_INT, scopes, d, pure=True)};"]
             ss = [v for v in self.vars_of(scopes, T_STR, assignable=True)]
             if ss:
-                return [f"{r.choice(ss)} {r.choice(['=', '+='])} {self.expr(T_STR, scopes, d)};"]
+                # no variable on the right-hand side: `s += s` in a loop grows exponentially
+                rhs = '"' + r.choice(STR_POOL) + '"'
+                if r.random() < 0.5:
+                    rhs = f"({rhs} + ({self.pure_atom_int(scopes)}).to_string())"
+                return [f"{r.choice(ss)} {r.choice(['=', '+='])} {rhs};"]
             return [f"println({self.expr(T_INT, scopes, d)});"]
         if c < 0.56:
             ls = self.vars_of(scopes, T_LINT)
